@@ -266,6 +266,12 @@ func run(c *eng.Ctx) {
 			nt := runMixedGroupCycles(c, idx)
 			c.R.End(idx, eng.Hash("c14-mixed-groups"), nt)
 		}
+		if idx := len(list) + 403; c.Mine(idx) {
+			settle(procBase)
+			c.R.Begin(idx)
+			nt := runCrossContainerCycles(c, idx)
+			c.R.End(idx, eng.Hash("c14-cross-container"), nt)
+		}
 		if idx := len(list) + 402; c.Mine(idx) {
 			settle(procBase)
 			c.R.Begin(idx)
